@@ -3,9 +3,10 @@
  * Ghost-index discipline (no `forall` in cbmc): ONE arbitrary slot index g_k is tracked in EVERY block (the
  * vector's own block, the other vector's block, every block allocated during the call).  The lifetime protocol
  * asserts of ELEM_* fire exactly for pointers whose offset inside their object is g_k * sizeof(ELEM) (and for
- * the stand-alone ELEM object g_solo of the harness, e.g. a `value` argument).  g_k is a nondet input that no harness constrains, so a
- * protocol violation at any slot of any block is a violation for g_k == that slot's index.  State UPDATES of
- * ELEM_* are unconditional, so the tracked slot's state is exactly what the untracked model would compute.
+ * the stand-alone ELEM object g_solo of the harness, e.g. a `value` argument).  g_k is a nondet input that no
+ * harness constrains, so a protocol violation at any slot of any block is a violation for g_k == that slot's
+ * index.  State UPDATES of ELEM_* are unconditional, so the tracked slot's state is exactly what the untracked
+ * model would compute.  A second index g_j (c02_std_algo.h) only carries values: harnesses tie it to g_k -+ shift.
  * Natively (REPLAY) every slot is tracked: the blocks are concretely initialised there.
  *
  * Known-finding waiver windows (g_lt_wbase, g_lt_wlo/whi): for a lifetime defect that fails on EVERY input an input
@@ -31,12 +32,16 @@ const void *g_solo2;        /* the algorithm stubs' local copy of the tracked sl
 #ifdef REPLAY
 #define C02_WAIVED(q) (((const char *)(q) >= (const char *)g_lt_wbase + g_lt_wlo[0] && (const char *)(q) < (const char *)g_lt_wbase + g_lt_whi[0]) || \
                        ((const char *)(q) >= (const char *)g_lt_wbase + g_lt_wlo[1] && (const char *)(q) < (const char *)g_lt_wbase + g_lt_whi[1]))
+#ifndef ELEM_TRACKED
 #define ELEM_TRACKED(q) ((const void *)(q) == g_solo || !C02_WAIVED(q))
+#endif
 #else
 #define C02_WAIVED(q) (__CPROVER_same_object(q, g_lt_wbase) && \
     (((size_t)__CPROVER_POINTER_OFFSET(q) >= g_lt_wlo[0] && (size_t)__CPROVER_POINTER_OFFSET(q) < g_lt_whi[0]) || \
      ((size_t)__CPROVER_POINTER_OFFSET(q) >= g_lt_wlo[1] && (size_t)__CPROVER_POINTER_OFFSET(q) < g_lt_whi[1])))
+#ifndef ELEM_TRACKED      /* (units/C02/algo_sparse_vs_loop.c switches the protocol asserts off to compare states only) */
 #define ELEM_TRACKED(q) ((const void *)(q) == g_solo || (const void *)(q) == g_solo2 || ((((size_t)__CPROVER_POINTER_OFFSET(q)) C02_SHR) == g_k && !C02_WAIVED(q)))
+#endif
 #endif
 /* 1-byte element representation: one array read / write per element operation and no divider in cbmc's array
  * indexing (with the 8-byte struct the same units run out of memory).  Values are 0..63. */
@@ -61,7 +66,7 @@ _Static_assert(sizeof(ELEM) == 1, "packed ELEM");
 /* p points at a slot boundary of the block `base`, at most `n` slots in */
 #define C02_IN(p, base, n) (__CPROVER_same_object((p), (base)) && __CPROVER_POINTER_OFFSET(p) >= 0 && \
     ((size_t)__CPROVER_POINTER_OFFSET(p) & (C02_SZ - 1)) == 0 && (size_t)__CPROVER_POINTER_OFFSET(p) <= (n) * C02_SZ)
-/* largest capacity considered: 2^36 elements of 8 bytes (cbmc object-size limit 2^40, and size+1 / size+n never wrap) */
+/* largest capacity considered: 2^36 elements (cbmc object-size limit 2^40 bytes; size+1 / size+n never wrap) */
 #ifdef WITNESS_MODE
 #define C02_MAXN 4
 #else
